@@ -131,10 +131,10 @@ theorem acts_false_spec (cfg : Cfg) (rec : Rec) (hrec : UnSpec cfg rec) (X : Pro
         · cases h
         · rename_i s1 hr
           simp only [Bool.false_and, Bool.false_eq_true, if_false] at h
-          exact tail ⟨s.env, s.aliases, s.unaliased, s1.already⟩ hw hn (Sub.refl _) h
+          exact tail ⟨s.env, s.aliases, s.unaliased, s1.already, s1.cache⟩ hw hn (Sub.refl _) h
         · rename_i s1 hr
           simp only [Bool.false_and, Bool.false_eq_true, if_false] at h
-          exact tail ⟨s.env, s.aliases, s.unaliased, s1.already⟩ hw hn (Sub.refl _) h
+          exact tail ⟨s.env, s.aliases, s.unaliased, s1.already, s1.cache⟩ hw hn (Sub.refl _) h
     · have ha : ∀ n o j v x t kl, a ≠ .dep n o j v x t kl := fun n o j v x t kl e => hdep ⟨n, o, j, v, x, t, kl, e⟩
       rw [acts_cons_nondep rec cfg false depth noRec vro d a rest s ha] at h
       obtain ⟨hs1, hr1, hp1, hv1⟩ := apply_false_spec d.prod a s
@@ -176,8 +176,14 @@ theorem setup_succ_true (cfg : Cfg) (fuel : Nat) (depth : Nat) (noRec : Bool) (v
       match resolve cfg.db cfg.path cfg.keep s.already name version vexpr depth vro.length vro with
       | .none => .notFound s
       | .error => .raised s
-      | .found d reason => install (setup cfg fuel) cfg depth noRec vro d reason (register cfg depth d reason s) := by
+      | .found d reason => install (setup cfg fuel) cfg depth noRec vro (pickDecl cfg.db s.cache d) reason
+          (register cfg depth (pickDecl cfg.db s.cache d) reason (s.afterResolve cfg depth vro name version vexpr)) := by
   cases h : resolve cfg.db cfg.path cfg.keep s.already name version vexpr depth vro.length vro <;> simp [setup, h]
+
+@[simp] theorem afterResolve_env (s : St) (cfg : Cfg) (depth : Nat) (vro : List VroEnt) (n : Name) (ver : Option VerReq)
+    (vexpr : Option VExpr) : (s.afterResolve cfg depth vro n ver vexpr).env = s.env := rfl
+@[simp] theorem afterResolve_already (s : St) (cfg : Cfg) (depth : Nat) (vro : List VroEnt) (n : Name)
+    (ver : Option VerReq) (vexpr : Option VExpr) : (s.afterResolve cfg depth vro n ver vexpr).already = s.already := rfl
 
 /-- C01 clause (c), unsetup direction, for every database, fuel, flag combination and in-flux set -/
 theorem setup_false_spec (cfg : Cfg) : ∀ fuel, UnSpec cfg (setup cfg fuel) := by
